@@ -35,7 +35,13 @@ let parse_service toks =
     (match toks with
      | np :: toks ->
        let pre, toks = take_n (int_of_string np)
-           (function b :: t -> let b = bytes_of_hex b in ((hh b, b), t) | _ -> failwith "preimage tokens") toks [] in
+           (function
+             | b :: t ->
+               (match String.index_opt b '=' with
+                | Some i ->
+                  ((bytes_of_hex (String.sub b 0 i), bytes_of_hex (String.sub b (i + 1) (String.length b - i - 1))), t)
+                | None -> let b = bytes_of_hex b in ((hh b, b), t))
+             | _ -> failwith "preimage tokens") toks [] in
        (match toks with
         | nl :: toks ->
           let lk, toks = take_n (int_of_string nl)
@@ -53,9 +59,18 @@ let model toks =
   match toks with
   | "rt" :: _cseed :: _pseed :: nsvc :: rest ->
     let svcs, rest = take_n (int_of_string nsvc) parse_service rest [] in
-    if rest <> [] then "BADCASE trailing" else begin
+    let extras =
+      match rest with
+      | [] -> Some []
+      | "x" :: n :: t ->
+        let xs, t' = take_n (int_of_string n)
+            (function k :: v :: t -> ((bytes_of_hex k, bytes_of_hex v), t) | _ -> failwith "foreign tokens") t [] in
+        if t' = [] then Some xs else None
+      | _ -> None in
+    if extras = None then "BADCASE trailing" else begin
+      let extras = match extras with Some x -> x | None -> [] in
       let st = { st_comp = (fun _ -> []); st_delta = svcs } in
-      let kvs = ser st in
+      let kvs = ser st @ extras in
       let coinc = not (coll_free hh enc_ts st) in
       let shown = List.sort cmp_str
           (List.map (fun (k, v) -> if keyonly k then hex_of_bytes k else hex_of_bytes k ^ ":" ^ hex_of_bytes v) kvs) in
